@@ -2,6 +2,7 @@
 # Confirm seeded changes: tools/verify_seed.sh seeded/<dir> ...   (serial; one scratch worktree under /tmp)
 # For each: patch applies to /repo HEAD, builds, the 46 baseline tests pass, demo exits 0 without and !=0 with the change.
 WT=/tmp/seedwt
+export EPH_CLI_EXECUTABLE=$WT/_build/eph
 git -C /repo worktree remove --force $WT 2>/dev/null
 git -C /repo worktree add -q --detach $WT HEAD || exit 1
 cmake -S $WT -B $WT/_build -G Ninja -DCMAKE_BUILD_TYPE=RelWithDebInfo >/dev/null
